@@ -35,7 +35,10 @@ pub const NAMES: &[&str] = &[
 const SYM_SOURCES: &[&str] = &["HEAD", "refs/remotes/o/HEAD", "refs/heads/sym"];
 const SYM_TARGETS: &[&str] = &["refs/heads/main", "refs/heads/a/b", "refs/remotes/o/main", "refs/tags/t"];
 const SHORT_NAMES: &[&str] = &["main", "t", "o", "a/b", "heads/main", "tags/t-1", "HEAD", "a-b", "heads/t", "remotes/o/main", "sym", "x", "notes/x", "o/main", "t-1", "a0"];
-const PREFIXES: &[&str] = &["refs/", "refs/heads/", "refs/tags/", "refs/heads/a/", "refs/remotes/", "refs/remotes/o/", "refs/notes/"];
+/// Only prefixes for which "directory" and "file-name prefix" readings of `prefixed()` select the same names: the API
+/// documents `refs/heads` == `refs/heads/` and falls back to file-name-prefix matching when the directory does not
+/// exist, so `refs/heads/a/` may legitimately select `refs/heads/a0` (DESIGN §4, C18 false-alarm note).
+const PREFIXES: &[&str] = &["refs/", "refs/heads/", "refs/tags/", "refs/remotes/", "refs/remotes/o/", "refs/notes/"];
 const N_OBJ: usize = 8;
 
 // ---------------------------------------------------------------------------------------------------------------
@@ -624,9 +627,14 @@ fn observe_step(c: &mut Ctx, store: &file::Store, git_dir: &Path, reflog: u8, st
                 }
             }
             Err(e) => {
-                if want16 || want18 {
+                let not_repo = e.contains("not a git repository");
+                if not_repo {
+                    c.rep.probe("git-refused-directory");
+                }
+                // C18 compares lists; when git prints none there is nothing to compare (C16 owns that finding)
+                if want16 || (want18 && !not_repo) {
                     let p = if want18 { "C18" } else { "C16" };
-                    let kind = if e.contains("not a git repository") { "not-a-git-repository" } else { "other" };
+                    let kind = if not_repo { "not-a-git-repository" } else { "other" };
                     c.rep.violate(p, format!("refstore {p} git-cannot-read {kind} | {what}"), format!("step {step} ({what}): {e}"));
                 }
             }
@@ -748,7 +756,9 @@ fn history(w: Workload, prop: String, git_dir: PathBuf, out: std::sync::Arc<std:
                         _ => "tx-dropped",
                     });
                     // completeness: fault-free, uncontended class only
-                    if res.phase == "prepare" && verdict.is_ok() && foreign.is_empty() && !faulted && prop == "C16" {
+                    // (log-only edits never change the name->value state, so a refusal leaves the store equal to the model
+                    // either way; the property does not promise more for them)
+                    if res.phase == "prepare" && verdict.is_ok() && foreign.is_empty() && !faulted && prop == "C16" && !edits.iter().any(|e| e.log_only) {
                         c.rep.violate(
                             "C16",
                             format!("refstore C16 rejected-but-model-accepts packed={packed} | {}", res.result.as_ref().err().map(|e| e.chars().take(40).collect::<String>()).unwrap_or_default()),
@@ -927,9 +937,12 @@ fn gen_tgt(r: &mut Rng, name: &str) -> Tgt {
     }
 }
 fn gen_exp(r: &mut Rng, cur: Option<&Tgt>, name: &str, delete: bool) -> Exp {
-    let truthful = r.chance(750);
+    let truthful = r.chance(900);
     let other = || -> Tgt { Tgt::Obj(5) };
-    match r.below(if delete { 4 } else { 5 }) {
+    let pick = r.below(if delete { 4 } else { 5 });
+    // most of the time choose existence constraints that agree with the state, so that histories make progress
+    let pick = if truthful && pick == 1 && cur.is_none() { 0 } else if truthful && pick == 4 && cur.is_some() { 0 } else if truthful && pick == 2 && cur.is_none() { 3 } else { pick };
+    match pick {
         0 => Exp::Any,
         1 => Exp::MustExist,
         2 => Exp::MustExistAndMatch(if truthful { cur.cloned().unwrap_or_else(other) } else { gen_tgt(r, name) }),
@@ -1173,14 +1186,19 @@ impl Scenario for RefStore {
         match p {
             "C20" => super::tier_pick(tier, 600, 20_000),
             "C17" => super::tier_pick(tier, 2_500, 150_000),
-            _ => super::tier_pick(tier, 2_500, 60_000),
+            _ => super::tier_pick(tier, 2_000, 60_000),
         }
     }
     fn jobs_hint(&self) -> usize {
         16
     }
-    fn cpu_limit_s(&self) -> u64 {
-        4
+    fn cpu_limit_s(&self, p: &str) -> u64 {
+        // C17 hunts endless loops (a normal run needs milliseconds); C20 copies the tree at every mutation
+        match p {
+            "C17" => 3,
+            "C20" => 90,
+            _ => 15,
+        }
     }
     fn worker_init(&self, dir: &Path, _tier: Tier) {
         // template git dir: objects (written by gitoxide's loose store), config
